@@ -232,6 +232,8 @@ class Interp:
         self.stack = []
         self.unit_checks = []
         self.lost = []           # statements that are calls made for their effect and that the interpretation could not model
+        self.assume = []         # (condition, truth): data-dependent conditions decided by the caller (one run per case; the caller merges the results)
+        self.forked = []         # conditions of the data-dependent ifs that were executed on both arms
         self.conds = []          # conditions of the data-dependent branches being executed (a side effect recorded by a hook happens under their product)
         self.nonzero = []        # polynomials a property's configuration assumes to be non-zero (truthy): `if chi and ...`
         self.frames = []         # environments of the functions being interpreted, innermost last (an in-place store is seen by every caller holding the array)
@@ -545,6 +547,12 @@ class Interp:
             tv = self.expr(st.test, env, mod)
             dec = self._truth(tv)
             src = 'concrete'
+            if dec is None and self.assume and isinstance(tv, Arr) and tv.ndim == 0 and tv.mask is None:
+                for p_, b_ in self.assume:
+                    if tv.poly == p_:
+                        dec = b_
+                    elif tv.poly == alg.b_not(p_):
+                        dec = not b_
         else:
             self.assumed.append((mod.path, st.lineno, up(st.test), dec, 'configuration'))
         if dec is not None:
@@ -561,6 +569,8 @@ class Interp:
         # if-conversion on a symbolic scalar condition
         if isinstance(tv, Arr) and tv.ndim == 0 and tv.mask is None and _is_boolean(tv.poly):
             e1, e2 = fork(env), fork(env)
+            if tv.poly not in self.forked:
+                self.forked.append(tv.poly)
             self.conds.append(tv.poly)
             try:
                 s1 = self.block(st.body, e1, mod)
@@ -1530,7 +1540,13 @@ class Interp:
             return Unk('shape attribute', e)
         if isinstance(v, _Interp1d):
             if name in ('x', 'y'):
-                return getattr(v, name)
+                if ('assume_sorted', 'True') in v.opts:
+                    return getattr(v, name)
+                # interp1d keeps the table sorted by its abscissa
+                lab_ = v.x.dims[0]
+                srt_ = alg.array_fn('argsort', lab_, v.x.poly)
+                t_ = getattr(v, name)
+                return t_.with_(poly=alg.index_at(t_.poly, lab_, srt_))
             return Unk('attribute %s of an interp1d object' % name, e)
         if isinstance(v, (GenList, _Repeat)):
             return BoundExt(v, name)
@@ -1855,9 +1871,9 @@ class Interp:
                 if isinstance(x, Unk):
                     return x
                 if last == 'log10':
-                    return x.with_(poly=alg.log10(x.poly), unit=None, dt='f')
+                    return x.with_(poly=alg.log10(x.poly), unit=num(1) if x.unit == num(1) else None, dt='f')       # the logarithm of a bare number is a bare number
                 if last == 'log':
-                    return x.with_(poly=alg.ln(x.poly), unit=None, dt='f')
+                    return x.with_(poly=alg.ln(x.poly), unit=num(1) if x.unit == num(1) else None, dt='f')
                 if last in ('abs', 'absolute'):
                     return x.with_(poly=alg.mk_fn('abs', P(x.poly)))
                 if last == 'sqrt':
@@ -2285,6 +2301,8 @@ class Interp:
         if name.startswith('copy.') and last == 'copy' and args and isinstance(args[0], Obj):
             o_ = Obj(args[0].cls, dict(args[0].attrs), args[0].name)          # shallow: a new object holding the same attribute values
             return o_
+        if name.startswith('copy.') and last == 'copy' and args and type(args[0]) in (list, dict, tuple, set):
+            return type(args[0])(args[0])          # shallow: a new container holding the same elements
         if name.startswith('copy.') and last in ('copy', 'deepcopy'):
             return _copy_val(args[0], {})
         if name in ('scipy.interpolate.interp1d', 'scipy.interpolate.interpolate.interp1d'):
